@@ -62,7 +62,18 @@ def gen_file_spec(rng):
         head = [b'--- a/file\t2021-07-02', b'+++ b/file\t2021-07-02']
     lines = head + lines
     if kind == 'unparsable':
-        lines = lines + [b'@@ -1,3 +1,3 @@', b' a', b'-b']
+        r = rng.random()
+        if r < 0.5:
+            lines = lines + [b'@@ -1,3 +1,3 @@', b' a', b'-b']
+        else:
+            # a complete hunk but for one line that is neither context,
+            # insert, delete nor THE marker (look-alikes included)
+            bad = rng.choice([b'\\ Kein Zeilenumbruch am Dateiende.',
+                              b'\\ No newline at end of property', b'\\ ',
+                              b'\\ No newline at end of file.', b'?',
+                              b'\\', b'x'])
+            lines = lines + [b'@@ -1,3 +1,3 @@', b' a', b'-b', bad, b'+B',
+                             b' c']
     if kind == 'huge_number':
         # a hunk header no integer conversion survives: not analysable
         lines = lines + [b'@@ -1 +' + b'9' * 4400 + b' @@', b'-a', b'+b']
